@@ -97,6 +97,18 @@ def cases(tier, only=None):
             for fam in ("sse", "avx_gen2", "avx_gen4", "vaes_avx512"):
                 for a in aads:
                     L.append(("gcminit", ("aes/gcm%d_%s.asm" % (bits, fam),), ("_aes_gcm_init_%d_%s" % (bits, fam), a)))
+    if only is not None and "hashkernel" in only:
+        import hashk
+        for k_ in hashk.KERNELS:
+            alg, func, ln = k_[:3]
+            rs = k_[3] if len(k_) > 3 else None
+            f = ("%s_mb/%s.asm" % (alg, func),)
+            if q:
+                if func in hashk.QUICK:      # the other kernels (AVX-512, MD5, SM3: 16-32 lanes) take minutes each: thorough tier
+                    L.append(("hashkernel", f, (alg, func, ln, 1, True, rs)))
+            else:
+                L.append(("hashkernel", f, (alg, func, ln, 1, False, rs)))
+                L.append(("hashkernel", f, (alg, func, ln, 2, True, rs)))
     if only is None or "gcmdata" in only or "gcmstream" in only:
         for (k, f, p_) in gcm_cases(tier):
             if only is None or k in only:
@@ -119,6 +131,9 @@ def _work(arg):
             o = aescases.xts_case(img, *params)
         elif kind == "gcminit":
             o = gcm_init_case(img, *params)
+        elif kind == "hashkernel":
+            import hashk
+            o = hashk.kernel_case(img, *params)
         elif kind == "gcmdata":
             o = gcm_data_case(img, *params)
         elif kind == "gcmstream":
